@@ -6,7 +6,7 @@ cd "$(dirname "$0")/.."
 export GOFLAGS=-mod=mod GOPROXY=off GOSUMDB=off GOTOOLCHAIN=local
 mkdir -p harness/bin .work evidence replays
 [ -f harness/go.sum ] || cp /repo/go.sum harness/go.sum
-(cd harness && go build -tags "verif test" -o bin/vh ./cmd/vh)
+(cd harness && for d in cmd/*/; do id=$(basename "$d"); go build -tags "verif test" -o "bin/vh-$id" "./cmd/$id" || exit 1; done)
 rc=0
 tmp=$(mktemp -d)
 cp spec/*.tla "$tmp"/
